@@ -23,6 +23,10 @@ def const_num(e: ast.AST) -> Optional[float]:
             return float(e.args[0].value)
         except (TypeError, ValueError):
             return None
+    if isinstance(e, ast.Call) and isinstance(e.func, (ast.Name, ast.Attribute)) and len(e.args) == 1 \
+            and (e.func.id if isinstance(e.func, ast.Name) else e.func.attr) == "Decimal" \
+            and isinstance(e.args[0], ast.UnaryOp):
+        return const_num(e.args[0])
     if isinstance(e, ast.UnaryOp) and isinstance(e.op, ast.USub):
         v = const_num(e.operand)
         return None if v is None else -v
